@@ -161,6 +161,21 @@ def run_case(case):
         big = [e for e in o["air"] if len(e["pl"]) > 32]
         if big:
             res.fail("C05/packet-longer-than-32", "%d bytes on air" % len(big[0]["pl"]))
+        # conservation (judged even where the known finding applies): a frame that a node's radio took and that is
+        # addressed to somebody else must later go on air from that node (forwarded, successfully or not); nothing the
+        # library does may silently empty a node's RX FIFO
+        air = o["air"]
+        for idx, e in enumerate(air):
+            if e["ack"] or len(e["pl"]) < 8 or not e["rx"]:
+                continue
+            to = e["pl"][2] | (e["pl"][3] << 8)
+            for rxn in e["rx"]:
+                if int(rxn) == to or to == 0o100:
+                    continue
+                if not any((not f["ack"]) and f["src"] == rxn and f["pl"] == e["pl"] for f in air[idx + 1:]):
+                    res.fail("C05/received-frame-not-forwarded/" + cls, "node %o took a frame for %o (type %d, %d bytes) from the air and never "
+                             "transmitted it onward" % (int(rxn), to, e["pl"][6], len(e["pl"])))
+                    break
         got_dst = o["queues"].get(m["dst"], [])
         good = [f for f in got_dst if f[0] == m["src"] and f[3] == m["type"] and f[5] == msg]
         others = {k: v for k, v in o["queues"].items() if k != m["dst"] and v}
